@@ -132,6 +132,23 @@ def _run_mc(module, cfg, name, workers=NCPU, timeout=3600, heap="8g"):
     return dict(progs=progs, states=r["distinct"], transitions=r["generated"], wall=r["wall"], text=text)
 
 
+def expect_violation(module, cfg, name, workers=8, timeout=900):
+    """Sensitivity self-test of a specification: a config that encodes a deliberate deviation must make TLC report an
+    invariant violation; if it does not, the model has lost its teeth (infrastructure error, not a verdict)."""
+    d = rundir(name)
+    r = run_tlc(module, cfg, os.path.join(d, "meta"), workers=workers, timeout=timeout, heap="6g")
+    for f in os.listdir(SPEC):
+        if "_TTrace_" in f:
+            try:
+                os.remove(os.path.join(SPEC, f))
+            except OSError:
+                pass
+    m = re.search(r"Error: Invariant (\w+) is violated", r["out"])
+    if not m:
+        raise Infra("expected-violation config %s/%s did not produce a violation:\n%s" % (module, cfg, r["out"][-1500:]))
+    return dict(invariant=m.group(1), states=r["distinct"])
+
+
 def run_sim(module, cfg, name, num, depth, seed, workers=8, timeout=600):
     """TLC simulation mode: random behaviours of the model; returns the programs/schedules printed."""
     d = rundir(name)
